@@ -25,10 +25,10 @@ type lifeSpec struct {
 	OnReplay   func(s *Sim, os []Oracle)
 }
 
-var lifeActions = []string{"storeNew", "storeUpdate", "complete", "cancel", "terminate", "renew", "migrate", "claim", "advance", "storeHostile", "seed", "vstorage", "bankDrain", "resetNode", "debtCombo", "keepAlive", "permission", "storeStale", "migRotate", "fault", "forceAfterRenew", "settleAfterMig"}
+var lifeActions = []string{"storeNew", "storeUpdate", "complete", "cancel", "terminate", "renew", "migrate", "claim", "advance", "storeHostile", "seed", "vstorage", "bankDrain", "resetNode", "debtCombo", "keepAlive", "permission", "storeStale", "migRotate", "fault", "forceAfterRenew", "settleAfterMig", "poorTakeover"}
 
 // actions that are off unless a spec gives them a weight
-var lifeOptIn = map[string]bool{"storeHostile": true, "seed": true, "vstorage": true, "bankDrain": true, "resetNode": true, "debtCombo": true, "keepAlive": true, "permission": true, "storeStale": true, "migRotate": true, "fault": true, "forceAfterRenew": true, "settleAfterMig": true}
+var lifeOptIn = map[string]bool{"storeHostile": true, "seed": true, "vstorage": true, "bankDrain": true, "resetNode": true, "debtCombo": true, "keepAlive": true, "permission": true, "storeStale": true, "migRotate": true, "fault": true, "forceAfterRenew": true, "settleAfterMig": true, "poorTakeover": true}
 
 func (sp *lifeSpec) newSim(t TB) (*Sim, *LifeCfg, []Oracle) {
 	os := sp.Oracles()
@@ -70,7 +70,7 @@ func (sp *lifeSpec) property() func(*rapid.T) {
 				"storeNew": cfg.GenStoreNew, "storeUpdate": cfg.GenStoreUpdate, "complete": cfg.GenComplete,
 				"cancel": cfg.GenCancel, "terminate": cfg.GenTerminate, "renew": cfg.GenRenew,
 				"migrate": cfg.GenMigrate, "claim": cfg.GenClaim, "advance": cfg.GenAdvance,
-				"storeHostile": cfg.GenStoreHostile, "seed": cfg.GenSeed, "vstorage": cfg.GenVstorage, "bankDrain": cfg.GenBankDrain, "resetNode": cfg.GenResetNode, "debtCombo": cfg.GenDebtCombo, "keepAlive": cfg.GenKeepAlive, "permission": cfg.GenPermission, "storeStale": cfg.GenStoreStale, "migRotate": cfg.GenMigrationAcrossRotation, "fault": cfg.GenFault, "forceAfterRenew": cfg.GenForceAfterRenew, "settleAfterMig": cfg.GenSettleAfterMigration,
+				"storeHostile": cfg.GenStoreHostile, "seed": cfg.GenSeed, "vstorage": cfg.GenVstorage, "bankDrain": cfg.GenBankDrain, "resetNode": cfg.GenResetNode, "debtCombo": cfg.GenDebtCombo, "keepAlive": cfg.GenKeepAlive, "permission": cfg.GenPermission, "storeStale": cfg.GenStoreStale, "migRotate": cfg.GenMigrationAcrossRotation, "fault": cfg.GenFault, "forceAfterRenew": cfg.GenForceAfterRenew, "settleAfterMig": cfg.GenSettleAfterMigration, "poorTakeover": cfg.GenPoorTakeover,
 			}
 			var menu []string
 			for _, k := range lifeActions {
@@ -163,7 +163,7 @@ var specC14 = &lifeSpec{
 		dec := s.Labels["migrate+"] + s.Labels["terminate+"] + s.Labels["expired"]
 		return o.MaxHolding >= 2 && dec > 0
 	},
-	Weights: map[string]int{"complete": 4, "advance": 3, "storeNew": 2, "debtCombo": 1, "bankDrain": 1, "vstorage": 1, "migRotate": 1},
+	Weights: map[string]int{"complete": 4, "advance": 3, "storeNew": 2, "debtCombo": 1, "bankDrain": 1, "vstorage": 1, "migRotate": 1, "poorTakeover": 1},
 }
 
 func init() { specC14.register() }
@@ -178,7 +178,7 @@ var specC02 = &lifeSpec{
 	Nontrivial: func(s *Sim, os []Oracle) bool {
 		return s.Labels["expired"]+s.Labels["rotated"]+s.Labels["timeout-reassigned"]+s.Labels["order-gave-up"]+s.Labels["replica-reduced"]+s.Labels["model-expired"] > 0
 	},
-	Weights:  map[string]int{"complete": 4, "advance": 4, "storeNew": 2, "storeHostile": 2, "seed": 1, "vstorage": 1, "bankDrain": 1, "renew": 2, "fault": 1},
+	Weights:  map[string]int{"complete": 4, "advance": 4, "storeNew": 2, "storeHostile": 2, "seed": 1, "vstorage": 1, "bankDrain": 1, "renew": 2, "fault": 1, "poorTakeover": 1},
 	Drain:    true,
 	MaxSteps: 50,
 }
@@ -197,7 +197,21 @@ var specC06 = &lifeSpec{
 		interesting := s.Labels["debt-created"] + s.Labels["debt-repaid"] + s.Labels["renew+"] + s.Labels["migrate+"] + s.Labels["claim+"]
 		return o.MaxEscrowsNonZero >= 2 && interesting > 0
 	},
-	Weights: map[string]int{"complete": 4, "advance": 3, "storeNew": 2, "renew": 3, "bankDrain": 2, "claim": 2, "vstorage": 1, "debtCombo": 2},
+	Weights: map[string]int{"complete": 4, "advance": 3, "storeNew": 2, "renew": 3, "bankDrain": 2, "claim": 2, "vstorage": 1, "debtCombo": 2, "poorTakeover": 1},
+	Pre: func(t *rapid.T, s *Sim, cfg *LifeCfg, os []Oracle) {
+		// half of the worlds mint block rewards that are visible in whole coins (claims then mix
+		// block reward and storage income, also when collateral debt is repaid from them)
+		if rapid.Bool().Draw(t, "visibleRewards") {
+			a := NewAction("params", 0)
+			apy, _ := sdk.NewDecFromStr(rapid.SampledFrom([]string{"0.5", "25"}).Draw(t, "apy"))
+			p := nodetypes.NewParams(sdk.NewInt64Coin(s.W.Cfg.Denom, rapid.SampledFrom([]int64{20, 1000, 50_000}).Draw(t, "blockReward")),
+				sdk.NewInt64Coin(s.W.Cfg.Denom, rapid.SampledFrom([]int64{1, 1000, 1_000_000_000}).Draw(t, "baseline")), apy, 32000000, 2000, "", 1, 10000,
+				sdk.NewDecWithPrec(10, 2), 10_000_000, 1_000_000)
+			a.Params = &p
+			s.Do(a)
+			s.Label("world-visible-block-rewards")
+		}
+	},
 	Drain:   true,
 }
 
@@ -232,7 +246,7 @@ var specC05 = &lifeSpec{
 	Nontrivial: func(s *Sim, os []Oracle) bool {
 		return os[0].(*C05Oracle).Ended > 0 && (s.Labels["c05-after-reassign"]+s.Labels["c05-update"] > 0 || s.Labels["c05-ended-timeout"] > 0)
 	},
-	Weights:  map[string]int{"complete": 1, "advance": 5, "storeNew": 3, "storeUpdate": 3, "cancel": 3, "resetNode": 2, "renew": 0, "migrate": 0, "claim": 0, "terminate": 1},
+	Weights:  map[string]int{"complete": 1, "advance": 5, "storeNew": 3, "storeUpdate": 3, "cancel": 3, "resetNode": 2, "renew": 2, "migrate": 0, "claim": 0, "terminate": 1},
 	MaxSteps: 40,
 }
 
@@ -249,7 +263,7 @@ var specC07 = &lifeSpec{
 	Nontrivial: func(s *Sim, os []Oracle) bool {
 		return os[0].(*C07Oracle).Ended > 0 && (s.Labels["add_vstorage+"]+s.Labels["remove_vstorage+"]+s.Labels["renew+"]+s.Labels["claim+"] > 0)
 	},
-	Weights:  map[string]int{"complete": 5, "advance": 4, "storeNew": 2, "renew": 3, "migrate": 2, "vstorage": 3, "bankDrain": 2, "claim": 2, "terminate": 1, "debtCombo": 2, "migRotate": 1},
+	Weights:  map[string]int{"complete": 5, "advance": 4, "storeNew": 2, "renew": 3, "migrate": 2, "vstorage": 3, "bankDrain": 2, "claim": 2, "terminate": 1, "debtCombo": 2, "migRotate": 1, "poorTakeover": 1},
 	Drain:    true,
 	MaxSteps: 35,
 	Capacity: 300_000_000,
